@@ -7,7 +7,7 @@ import sys
 import common, enc, gen, sweep, impl, seq
 import segno
 
-TOP = ['theories/Tie/TieTables.v']
+TOP = ['theories/Props/C14.v', 'theories/Tie/TieTables.v']
 RULE = ('product of the documented argument domains for make / make_qr / make_micro / make_sequence including boundary and malformed values '
         '(empty content, odd-length kanji, version "m5", mask 8, error "x", numeric strings with sign/space/underscore, bools, case variants), '
         'serializer arguments (scale, border, colours, kind) and the command line; the exception class of the implementation is compared with '
